@@ -72,6 +72,85 @@ impl Decoded {
     pub fn same(&self, other: &Decoded) -> bool {
         self == other || format!("{:?}", self) == format!("{:?}", other)
     }
+    /// Hand-modified copies of a decoded value, in states that decoding itself never produces but
+    /// that the public fields allow (the crate documentation itself shows
+    /// `protected.original_data = None` followed by an edit of the parsed header): retained wire
+    /// bytes dropped, retained wire bytes replaced by hand, payload / ciphertext removed.
+    pub fn variants(&self) -> Vec<(&'static str, Decoded)> {
+        let mut out = Vec::new();
+        macro_rules! prot {
+            ($m:expr, $variant:ident) => {{
+                let mut a = $m.clone();
+                a.protected.original_data = None;
+                out.push(("wire-bytes-dropped", Decoded::$variant(a)));
+                let mut b = $m.clone();
+                b.protected.original_data = Some(vec![0xa1, 0x01, 0x26]);
+                out.push(("wire-bytes-set-by-hand", Decoded::$variant(b)));
+                let mut c = $m.clone();
+                c.protected.original_data = None;
+                c.protected.header.key_id = b"edited".to_vec();
+                out.push(("header-edited", Decoded::$variant(c)));
+            }};
+        }
+        match self {
+            Decoded::Sign(m) => {
+                prot!(m, Sign);
+                let mut d = m.clone();
+                d.payload = None;
+                out.push(("payload-removed", Decoded::Sign(d)));
+                let mut e = m.clone();
+                e.signatures.clear();
+                out.push(("signatures-removed", Decoded::Sign(e)));
+            }
+            Decoded::Sign1(m) => {
+                prot!(m, Sign1);
+                let mut d = m.clone();
+                d.payload = None;
+                out.push(("payload-removed", Decoded::Sign1(d)));
+            }
+            Decoded::Mac(m) => {
+                prot!(m, Mac);
+                let mut d = m.clone();
+                d.payload = None;
+                d.recipients.clear();
+                out.push(("payload-and-recipients-removed", Decoded::Mac(d)));
+            }
+            Decoded::Mac0(m) => {
+                prot!(m, Mac0);
+                let mut d = m.clone();
+                d.payload = None;
+                out.push(("payload-removed", Decoded::Mac0(d)));
+            }
+            Decoded::Encrypt(m) => {
+                prot!(m, Encrypt);
+                let mut d = m.clone();
+                d.ciphertext = None;
+                d.recipients.clear();
+                out.push(("ciphertext-and-recipients-removed", Decoded::Encrypt(d)));
+            }
+            Decoded::Encrypt0(m) => {
+                prot!(m, Encrypt0);
+                let mut d = m.clone();
+                d.ciphertext = None;
+                out.push(("ciphertext-removed", Decoded::Encrypt0(d)));
+            }
+            Decoded::Recipient(m) => prot!(m, Recipient),
+            Decoded::Signature(m) => prot!(m, Signature),
+            Decoded::SuppPub(m) => prot!(m, SuppPub),
+            Decoded::Protected(p) => {
+                let mut a = p.clone();
+                a.original_data = Some(vec![0xa1, 0x01, 0x26]);
+                out.push(("wire-bytes-set-by-hand", Decoded::Protected(a)));
+                let mut b = p.clone();
+                b.original_data = None;
+                b.header.key_id = b"edited".to_vec();
+                out.push(("header-edited", Decoded::Protected(b)));
+            }
+            _ => {}
+        }
+        out
+    }
+
     pub fn to_vec(&self) -> Result<Vec<u8>, CoseError> {
         each!(self, v => v.clone().to_vec())
     }
